@@ -25,6 +25,9 @@ def outcomes(prog, path, bitpos, nbytes):
     return ip, alts, events
 
 
+_PROG = [None]
+
+
 def expand_field(alts, getter):
     """[(facts, value)] for one field, expanding a Choice stored in the field"""
     out = []
@@ -33,7 +36,8 @@ def expand_field(alts, getter):
             out.append((fcts, ("ERR",)))
             continue
         x = getter(v.fields[0])
-        for d, y in (x.alts if isinstance(x, Choice) else [((), x)]):
+        # expand every choice, also those nested inside the value (e.g. Some(<choice of numbers>))
+        for d, y in decode.expand_paths(_PROG[0], x, lambda _p, _c: True):
             out.append((tuple(fcts) + tuple(d), y))
     return out
 
@@ -115,6 +119,7 @@ def table_rule(rep, prog, rid, name, alts, atoms, ref, events, nonevalue):
 
 def run(rep, tier, replay=None):
     prog = facts.load("std")
+    _PROG[0] = prog
     run_, oks, errs = decode_paths(prog, 14)
     position_rule(rep, prog, oks)
     rid = rep.rule("R2", "the value decoded from every 13-bit / 12-bit code equals the Annex 10 altitude (25N-1000 with Q, Gillham otherwise; 0/None for all-zero, metric, illegal or unrepresentable codes)")
